@@ -1,8 +1,16 @@
 package main
 
 import (
+	"context"
 	"fmt"
 	"sort"
+
+	"google.golang.org/protobuf/reflect/protodesc"
+	"google.golang.org/protobuf/reflect/protoreflect"
+	"google.golang.org/protobuf/reflect/protoregistry"
+
+	"github.com/bufbuild/protocompile"
+	"github.com/bufbuild/protocompile/linker"
 
 	"github.com/bufbuild/protocompile/internal/zzverif/hx"
 	"github.com/bufbuild/protocompile/internal/zzverif/tape"
@@ -11,6 +19,7 @@ import (
 type c05scn struct {
 	name     string
 	files    fileSet
+	descs    []string // files of the set that the resolver hands out as built descriptors
 	request  [][]string // requested name sets (every permutation of each is enumerated)
 	mustFail bool
 	pbQuick  int
@@ -79,6 +88,17 @@ func c05Scenarios() []c05scn {
 			pbQuick: 2, pbThor: 3,
 		},
 		{
+			name: "desc-dep-with-extension",
+			files: fileSet{
+				"r1.proto":  p2("p", "message R1 { optional ext.Base b = 1; }\n", `"ext.proto"`),
+				"r2.proto":  p2("p", "message R2 { optional ext.Base b = 1; }\n", `"ext.proto"`),
+				"ext.proto": p2("ext", "message Base { optional int32 x = 1; extensions 100 to 200; }\nextend Base { optional int32 e = 100; }\n"),
+			},
+			descs:   []string{"ext.proto"},
+			request: [][]string{{"r1.proto", "r2.proto"}},
+			pbQuick: 2, pbThor: 3,
+		},
+		{
 			name: "symbol-collision",
 			files: fileSet{
 				"r1.proto": p2("p", "message Same { optional int32 x = 1; }\n"),
@@ -142,9 +162,19 @@ func runC05(h *hx.H) {
 }
 
 func c05Body(sc c05scn, order []string, par int, want string, canon []string) func(r *tape.Run) {
+	descs := builtDescs(sc)
 	return func(r *tape.Run) {
 		rep := &recReporter{abortAt: -1}
-		o := runCompile(r, &memResolver{files: sc.files}, rep, par, nil, order, nil)
+		res := &memResolver{files: sc.files}
+		if len(descs) > 0 {
+			res.before = func(path string, _ int) (*protocompile.SearchResult, error, bool) {
+				if d, ok := descs[path]; ok {
+					return &protocompile.SearchResult{Desc: d}, nil, true
+				}
+				return nil, nil, false
+			}
+		}
+		o := runCompile(r, res, rep, par, nil, order, nil)
 		if o.err != nil {
 			r.Outcome = "fail"
 		} else {
@@ -164,4 +194,27 @@ func c05Body(sc c05scn, order []string, par int, want string, canon []string) fu
 			r.Fail("schedule-dependent-output", "outcome %q differs from the sequential reference %q (order %v, parallelism %d, errors %v)", r.Outcome, want, order, par, rep.errs)
 		}
 	}
+}
+
+// builtDescs compiles the listed files once, outside the scheduler, and
+// rebuilds them with the Go protobuf runtime, so that the resolver can hand
+// them out as plain protoreflect descriptors (the SearchResult.Desc form).
+func builtDescs(sc c05scn) map[string]protoreflect.FileDescriptor {
+	if len(sc.descs) == 0 {
+		return nil
+	}
+	out := map[string]protoreflect.FileDescriptor{}
+	c := protocompile.Compiler{Resolver: &memResolver{files: sc.files}, MaxParallelism: 1}
+	fs, err := c.Compile(context.Background(), sc.descs...)
+	if err != nil {
+		panic(err)
+	}
+	for _, f := range fs {
+		fd, err := protodesc.NewFile(f.(linker.Result).FileDescriptorProto(), protoregistry.GlobalFiles)
+		if err != nil {
+			panic(err)
+		}
+		out[f.Path()] = fd
+	}
+	return out
 }
